@@ -38,9 +38,9 @@ Scalars(e, o) ==
   /\ Chk("doc-config-getters", e.rows = o.cfg.rows /\ e.buckets = o.cfg.buckets /\ e.seed = o.cfg.seed)
 \* returned triples <<item, estimate, lower bound, upper bound>> against the ground truth of o
 ProbesOK(q, o) ==
-  /\ Chk("never-under-estimates", \A k \in DOMAIN q : Get(o.truth, q[k][1]) <= q[k][2])
-  /\ Chk("estimate<=total-weight", \A k \in DOMAIN q : q[k][2] <= o.total)
-  /\ Chk("lb<=estimate<=ub", \A k \in DOMAIN q : q[k][3] <= q[k][2] /\ q[k][2] <= q[k][4])
+  /\ Chk("never-under-estimates", \A k \in DOMAIN q : NLeq(Get(o.truth, q[k][1]), q[k][2]))
+  /\ Chk("estimate<=total-weight", \A k \in DOMAIN q : NLeq(q[k][2], o.total))
+  /\ Chk("lb<=estimate<=ub", \A k \in DOMAIN q : NLeq(q[k][3], q[k][2]) /\ NLeq(q[k][2], q[k][4]))
   /\ \A k \in DOMAIN q : EstOK(o, q[k][1], q[k][2], q[k][3], q[k][4])
 
 \* ---- tier B (design) clauses ---------------------------------------------------------------------
@@ -78,6 +78,7 @@ TNew == IsEvent("New") /\ LET e == Log[l] IN
           /\ UNCHANGED <<blob, hloc>>
 TUpdate == IsEvent("Update") /\ LET e == Log[l]  o == obj[e.id]  c2 == NewCells(o, e) IN
           /\ Chk("cells-in-range", DeltaOK(o, e))
+          /\ (IF WideNums THEN Chk("driver:wide-numbers", WIsNum(e.w) /\ WIsNum(e.total) /\ \A k \in DOMAIN c2 : WIsNum(c2[k])) ELSE TRUE)
           /\ Update(e.id, e.x, e.w, c2)
           /\ Scalars(e, obj'[e.id])
           /\ IF TierB /\ e.w > 0
